@@ -6,8 +6,10 @@ SEED = [0]
 
 
 def jobs(tier):
+    from checks import c15
     m = ("strict",)
-    return D.g_pump(("strict", "warn")) + D.g_region(m, tier) + D.g_leaf(m, deep=2, types=["UINT8", "UINT16", "UINT32", "UINT64", "INT8", "INT16", "INT32", "INT64", "TPM_ST", "TPM_CC", "TPMI_YES_NO"]) + D.g_crosscheck(tier, SEED[0], only_frames=True) + D.g_dispatch(("strict",))
+    front = [(c15.unit_auto_dispatch, ())]
+    return D.g_pump(("strict", "warn")) + D.g_region(m, tier) + D.g_leaf(m, deep=2, types=["UINT8", "UINT16", "UINT32", "UINT64", "INT8", "INT16", "INT32", "INT64", "TPM_ST", "TPM_CC", "TPMI_YES_NO"]) + D.g_crosscheck(tier, SEED[0], only_frames=True) + D.g_dispatch(("strict",)) + front
 
 
 def keep(name, ob):
